@@ -689,6 +689,16 @@ def while_loop(I: Interp, st: ast.While, fr: Frame) -> None:
     I.exec_block(st.orelse, fr)
 
 
+def _range_step(seq: VList) -> int | None:
+    if seq.kind != "range" or not seq.items or len(seq.items) < 2:
+        return None
+    vals = [x.concrete() if isinstance(x, VInt) else None for x in seq.items]
+    if any(v is None for v in vals):
+        return None
+    step = vals[1] - vals[0]
+    return step if all(b - a == step for a, b in zip(vals, vals[1:])) else None
+
+
 def invariant_for(I: Interp, st: Any, fr: Frame, it: V, lc: LoopContract,
                   key: tuple[str, int]) -> None:
     """`for x in seq` with a sidecar invariant over the hidden position `__k` (ghost local)."""
@@ -710,7 +720,11 @@ def invariant_for(I: Interp, st: Any, fr: Frame, it: V, lc: LoopContract,
     for name, f in lc.invariant(I, fr):
         I.assume(f)
     if I.branch(k.t < n):
-        if seq.items is not None:
+        rng_step = _range_step(seq)
+        if rng_step is not None:
+            # a concrete range: the k-th element is start + k*step, no case split needed
+            x = VInt(seq.items[0].t + k.t * rng_step)  # type: ignore[index]
+        elif seq.items is not None:
             idx = I.choose([k.t == q for q in range(len(seq.items))])
             x = seq.items[idx]
         else:
